@@ -66,6 +66,9 @@ MISSED = {
     "C18-g": "only a *joining* caller gave up in flight: in 1 de-duplication case in 6 the only caller now drops its lookup and the name is asked again; the later lookup must fare exactly as when the abandoned lookup had been for another name",
     "C19-h": "injected out-of-bailiwick records were A, NS, CNAME and TXT only: an NSEC record at a victim name (a 'denial proof' of somebody else's zone) joined the injection kinds",
     "C19-e": "aliases came as chains and loops only: 1 simulated internet in 13 now has an alias tree (2-3 CNAME records per owner, 4-5 levels) and the number of its names looked up per client query is held against the recursor's cap of 64",
+    # round 5 (letter i)
+    "C04-i": "no case wrote more than six names into one encoder, so the per-message budgets of the name compressor (64 stored candidates, 120 names written with compression) were never used up: new sub-property `wire_many_names` writes 40-320 related names (fresh leading labels, letter case chosen per name) into one encoder and reads each back at its offset",
+    "C13-i": "transfer requests always asked for AXFR and always met a SqliteZoneHandler: new enumerated sub-property `transfer_questions_all_handlers` sends AXFR and IXFR questions (with and without the client's SOA) unsigned, validly signed, wrongly keyed and stale to an InMemoryZoneHandler and to a SqliteZoneHandler under Deny / AllowSigned / AllowAll through the catalog; two or more answer RRs only where the policy admits the transfer",
 }
 
 # seeds that stopped violating their property because of a later `fix:` commit in /repo
@@ -133,7 +136,7 @@ for d in sorted(glob.glob(ROOT + "/*/")):
     rows.append("| %s %s | %s | %s |" % (name, short.replace("|", "\\|"), needs.replace("|", "\\|"), caught.replace("|", "\\|")))
 
 names = [os.path.basename(d[:-1]) for d in sorted(glob.glob(ROOT + "/*/")) if os.path.exists(d + "meta.json")]
-rounds = [("1", "ab"), ("2", "cd"), ("3", "ef"), ("4", "gh")]
+rounds = [("1", "ab"), ("2", "cd"), ("3", "ef"), ("4", "gh"), ("5", "i"), ("6", "j")]
 parts, missed_parts = [], []
 for rn, letters in rounds:
     r = [n for n in names if n[-1] in letters]
